@@ -354,7 +354,8 @@ class MORE(Command):
         super(MORE, self).__init__(shx, spline)
         self.m = 1
         p, _ = self._parse_line(spline, intnums=True)
-        self.m = p[0]
+        if len(p) > 0:
+            self.m = p[0]
 
 
 class CELL(Command):
